@@ -42,19 +42,24 @@ package txsort
 //@ func txsort.Sort
 //@   requires tx != nil
 //@   ensures result != nil && fresh(result)
+//@   ensures $calls_Copy == 1 && $calls_Sort == 2 && result == $ret_Copy#1
 //@   modifies nothing
-//@   assert after Copy#1: $ret != nil
-//@   assert after Sort#1: true
-//@   assert after Sort#2: true
+//@   assert after Copy#1: $ret != nil && $arg0 == tx
+//@   assert after Sort#1: typeis($arg0, "txsort.sortableInputSlice") && sameobj(unbox($arg0, "txsort.sortableInputSlice"), $ret_Copy#1.TxIn) && len(unbox($arg0, "txsort.sortableInputSlice")) == len($ret_Copy#1.TxIn) && unbox($arg0, "txsort.sortableInputSlice").off == $ret_Copy#1.TxIn.off
+//@   assert after Sort#2: typeis($arg0, "txsort.sortableOutputSlice") && sameobj(unbox($arg0, "txsort.sortableOutputSlice"), $ret_Copy#1.TxOut) && len(unbox($arg0, "txsort.sortableOutputSlice")) == len($ret_Copy#1.TxOut) && unbox($arg0, "txsort.sortableOutputSlice").off == $ret_Copy#1.TxOut.off
 
 //@ func txsort.InPlaceSort
 //@   requires tx != nil
+//@   ensures $calls_Sort == 2
 //@   modifies tx.TxIn[*], tx.TxOut[*]
-//@   assert after Sort#1: true
-//@   assert after Sort#2: true
+//@   assert after Sort#1: typeis($arg0, "txsort.sortableInputSlice") && sameobj(unbox($arg0, "txsort.sortableInputSlice"), tx.TxIn) && len(unbox($arg0, "txsort.sortableInputSlice")) == len(tx.TxIn) && unbox($arg0, "txsort.sortableInputSlice").off == tx.TxIn.off
+//@   assert after Sort#2: typeis($arg0, "txsort.sortableOutputSlice") && sameobj(unbox($arg0, "txsort.sortableOutputSlice"), tx.TxOut) && len(unbox($arg0, "txsort.sortableOutputSlice")) == len(tx.TxOut) && unbox($arg0, "txsort.sortableOutputSlice").off == tx.TxOut.off
 
 //@ func txsort.IsSorted
 //@   requires tx != nil
+//@   ensures $calls_IsSorted >= 1 && $calls_IsSorted <= 2
+//@   ensures result == ($ret_IsSorted#1 && $calls_IsSorted == 2 && $ret_IsSorted#2)
 //@   modifies nothing
-//@   assert after IsSorted#1: true
-//@   assert after IsSorted#2: true
+//@   assert after IsSorted#1: typeis($arg0, "txsort.sortableInputSlice") && sameobj(unbox($arg0, "txsort.sortableInputSlice"), tx.TxIn) && len(unbox($arg0, "txsort.sortableInputSlice")) == len(tx.TxIn) && unbox($arg0, "txsort.sortableInputSlice").off == tx.TxIn.off
+//@   assert after IsSorted#2: typeis($arg0, "txsort.sortableOutputSlice") && sameobj(unbox($arg0, "txsort.sortableOutputSlice"), tx.TxOut) && len(unbox($arg0, "txsort.sortableOutputSlice")) == len(tx.TxOut) && unbox($arg0, "txsort.sortableOutputSlice").off == tx.TxOut.off
+
